@@ -343,6 +343,43 @@ func init() {
 		c.ret(c.m.rvGet(r))
 	})
 	add("(reflect.Value).Call", func(c *stubCtx) { c.m.reflectCall(c) })
+	add("reflect.FuncOf", func(c *stubCtx) {
+		var ins, outs []*types.Var
+		for _, e := range c.m.sliceElems(c.args[0]) {
+			t, ok := rtypeOf(e)
+			if !ok {
+				c.m.reflectPanic(c, "reflect.FuncOf: nil type")
+				return
+			}
+			ins = append(ins, types.NewVar(0, nil, "", t))
+		}
+		if c.args[1] != nil {
+			if sl, ok := c.args[1].(Slice); ok && !sl.Nil {
+				for _, e := range c.m.sliceElems(sl) {
+					t, _ := rtypeOf(e)
+					outs = append(outs, types.NewVar(0, nil, "", t))
+				}
+			}
+		}
+		variadic := c.args[2].(*smt.Term).IsTrue()
+		sig := types.NewSignatureType(nil, nil, nil, types.NewTuple(ins...), types.NewTuple(outs...), variadic)
+		c.ret(c.m.rtype(sig))
+	})
+	add("reflect.MakeFunc", func(c *stubCtx) {
+		t, ok := rtypeOf(c.args[0])
+		if !ok {
+			c.m.reflectPanic(c, "reflect: call of MakeFunc with non-Func type")
+			return
+		}
+		sig, isSig := t.Underlying().(*types.Signature)
+		if !isSig {
+			c.m.reflectPanic(c, "reflect: call of MakeFunc with non-Func type")
+			return
+		}
+		c.m.nextObj++
+		cl := &Closure{Native: "makefunc", Env: []Value{c.args[1], &Opaque{Tag: "sig", X: sig}}, ID: c.m.nextObj}
+		c.ret(mkRV(&RVal{T: t, V: cl}))
+	})
 	add("(reflect.Value).Set", func(c *stubCtx) {
 		r, x := rvOf(c.args[0]), rvOf(c.args[1])
 		if r == nil || x == nil {
@@ -570,4 +607,42 @@ func (m *Machine) rtypeMethod(t *Thread, name string, args []Value, ins ssa.Inst
 	default:
 		panic(unsupported(fmt.Sprintf("reflect.Type.%s", name)))
 	}
+}
+
+// callMakeFunc runs a function created by reflect.MakeFunc: the arguments are wrapped into reflect.Values and handed to
+// the implementation closure; its results are unwrapped.
+func (m *Machine) callMakeFunc(t *Thread, cl *Closure, args []Value, ins ssa.Instruction, onRet func(Value), advance func(), deferOwner *Frame) {
+	impl := cl.Env[0].(*Closure)
+	sig := cl.Env[1].(*Opaque).X.(*types.Signature)
+	cells := m.newCells(len(args))
+	for i, a := range args {
+		pt := sig.Params().At(i).Type()
+		cells.E[i] = mkRV(&RVal{T: pt, V: a})
+	}
+	var in Value = Slice{Nil: true}
+	if len(args) > 0 {
+		in = Slice{C: cells, Len: len(args), Cap: len(args)}
+	}
+	m.noAdvanceNext = true
+	m.invoke(t, impl, []Value{in}, ins, func(res Value) {
+		var out Value
+		rs := sig.Results()
+		if rs.Len() > 0 {
+			elems := m.sliceElems(res)
+			if len(elems) != rs.Len() {
+				panic(unsupported("reflect.MakeFunc implementation returned wrong number of results"))
+			}
+			if rs.Len() == 1 {
+				out = m.rvGet(rvOf(elems[0]))
+			} else {
+				tp := make(Tuple, rs.Len())
+				for i := range tp {
+					tp[i] = m.rvGet(rvOf(elems[i]))
+				}
+				out = tp
+			}
+		}
+		onRet(out)
+		advance()
+	}, deferOwner)
 }
